@@ -1,5 +1,7 @@
 package engines
 
+import "github.com/elastic/go-libaudit/v2/auparse"
+
 import "verifsim/core"
 
 var activeSched *core.Sched
@@ -25,3 +27,6 @@ func setAuto(d, salt uint32) { autoDensity, autoSalt = d, salt }
 
 //go:norace
 func getAuto() (uint32, uint32) { return autoDensity, autoSalt }
+
+//go:norace
+func setMsgIDs(m map[*auparse.AuditMessage]int) { msgIDs = m }
